@@ -459,6 +459,13 @@ fn check_text_routes_inner(t: &str) -> Result<(), String> {
     tls_eq(&Cow::Borrowed(t), "Cow (generic arm)")?;
     tls_eq(&t.to_string().into_boxed_str(), "Box<str> (generic arm)")?;
     tls_eq(&UserStruct(t), "user struct (generic arm)")?;
+    // other Display types of std that go through the generic arm
+    tls_eq(&format_args!("<{t}|{:>5}|{}>", t.len(), t.chars().count()), "fmt::Arguments")?;
+    let boxed: Box<dyn std::fmt::Display> = Box::new(t.to_string());
+    tls_eq(&boxed, "Box<dyn Display>")?;
+    tls_eq(&t.escape_debug(), "str::EscapeDebug")?;
+    tls_eq(&std::net::Ipv4Addr::new(t.len() as u8, 0, 255, 1), "Ipv4Addr")?;
+    tls_eq(&std::num::Wrapping(t.len() as u64 * 1_000_000_007), "Wrapping<u64>")?;
     // LeanStrings in several storage states
     let direct = LeanString::from(t);
     tls_eq(&direct, "LeanString")?;
